@@ -42,7 +42,7 @@ RegMatches(r, logged) ==
   /\ DOMAIN r = {logged[i][1] : i \in 1..Len(logged)}
   /\ \A i \in 1..Len(logged) : r[logged[i][1]] = logged[i][2]
 Matches(e) ==
-  /\ \A s \in 1..Len(e.post) : RegMatches(sk'[s], e.post[s])
+  /\ "post" \in DOMAIN e => \A s \in 1..Len(e.post) : RegMatches(sk'[s], e.post[s])
   \* query() is a function of the registers: same registers, same answer
   /\ e.ev = "query" => \A q \in qmemo : q[1] = sk[e.s] => q[2] = e.out
 
@@ -52,7 +52,7 @@ TStep ==
        /\ Consume(e)
        /\ ok' = Matches(e)
        /\ qmemo' = IF e.ev = "query" THEN qmemo \cup {<<sk[e.s], e.out>>} ELSE qmemo
-       /\ IF Matches(e) THEN TRUE ELSE PrintT(<<"MISMATCH", tid, l, ToJson([ev |-> e.ev, spec |-> [s \in 1..Len(e.post) |->
+       /\ IF Matches(e) THEN TRUE ELSE PrintT(<<"MISMATCH", tid, l, ToJson([ev |-> e.ev, spec |-> [s \in 1..(IF "post" \in DOMAIN e THEN Len(e.post) ELSE 0) |->
                LET d == SetToSeq(DOMAIN sk'[s]) IN [i \in 1..Len(d) |-> <<d[i], sk'[s][d[i]]>>]]])>>)
   /\ l' = l + 1 /\ tid' = tid
 TDone == l > Len(Events) /\ UNCHANGED tvars
